@@ -293,11 +293,19 @@ impl StreamAlphaNode {
     }
 
     /// Get current time in milliseconds since epoch
+    #[cfg(not(rre_verif))]
     fn current_time_ms() -> u64 {
         SystemTime::now()
             .duration_since(UNIX_EPOCH)
             .unwrap()
             .as_millis() as u64
+    }
+
+    /// Verification hook: the injected clock, when one is set (the real clock otherwise).
+    #[cfg(rre_verif)]
+    fn current_time_ms() -> u64 {
+        let _ = (SystemTime::now(), UNIX_EPOCH);
+        crate::verif_hooks::now_ms()
     }
 
     /// Clear all events from buffer
